@@ -21,7 +21,14 @@ RULE = ("Substances all carry compositions: synthetic keys with explicit composi
         "'(X)a(Y)b' of generated formulas.  Reactions are balanced by construction (integer combinations of an exact "
         "null-space basis of the composition matrix, plus catalysts and inactive coefficients); 'admit' breaks one "
         "reaction at a random position in about a third of the cases: charge only, one element only, one coefficient, or a "
-        "dropped species.  The expected verdict is recomputed from the description with integer arithmetic.  "
+        "dropped species.  In four tenths of the 'admit' cases compositions, charges and stoichiometric coefficients need "
+        "not be integers: dyadic values (multiples of 1/8 and smaller powers of two, so a balanced reaction has an exactly "
+        "zero float net) in explicit compositions ({8: 2.25}, charge 0.5 in the dict or as argument), decimal subscripts "
+        "in formulas ('UO2.25', 'Fe0.875O', '[Fe0.5O]2.5'; families urania/ferrites and generated complexes), "
+        "coefficients written as floats or Fractions (Reaction(..., dont_check={'all_integral'}) or explicit checks=; "
+        "integral floats such as 2.0 with the default checks); the broken variants then include imbalances of 1/16 .. 3/2 "
+        "in one key (charge only, one element only; labels 'imbalance<=1/2:*') and coefficients off by 1/8 .. 1.  "
+        "The expected verdict is recomputed from the description with exact integer / Fraction arithmetic.  "
         "Non-trivial = (>= 2 reactions and a charged substance) or a charge-only rejection; distinct by case digest.")
 ASSUMPTIONS = [
     "hand-written compositions of the species families in vlib/gen_c04.py (cross-checked once against the parser)",
@@ -61,10 +68,23 @@ def make_substances(M, case):
     return out
 
 
+# how a reaction with non-integer coefficients is admitted by the Reaction constructor (default_checks has 'all_integral')
+REACTION_CHECKS = {"default": {}, "dont_check": {"dont_check": {"all_integral"}},
+                   "checks": {"checks": ("any_effect", "all_positive", "consistent_units")}}
+
+
 def make_reactions(M, case, params, cls="Reaction"):
-    return [M[cls](dict(rx["reac"]), dict(rx["prod"]), params[j],
-                          inact_reac=dict(rx["ireac"]) or None, inact_prod=dict(rx["iprod"]) or None)
+    def part(d):
+        return {k: G.num(v) for k, v in d.items()}      # int | float | Fraction as written in the case
+    return [M[cls](part(rx["reac"]), part(rx["prod"]), params[j],
+                   inact_reac=part(rx["ireac"]) or None, inact_prod=part(rx["iprod"]) or None,
+                   **REACTION_CHECKS[rx.get("checks", "default")])
             for j, rx in enumerate(case["rxns"])]
+
+
+def jnum(v):
+    """exact number -> JSON (int, or float: the values are dyadic)"""
+    return int(v) if v == int(v) else float(v)
 
 
 def construct(M, case, rxns, subs, **kw):
@@ -89,6 +109,16 @@ def describe(case, ctx):
         ctx.label("inactive_coeff")
     if any(set(rx["reac"]) & set(rx["prod"]) for rx in case["rxns"]):
         ctx.label("catalyst")
+    if any(not isinstance(v, int) for s in subs for k, v in s["comp"].items() if k != "0"):
+        ctx.label("noninteger_composition")
+    if any(not isinstance(s["comp"].get("0", 0), int) for s in subs):
+        ctx.label("noninteger_charge")
+    styles = set(rx.get("coef", "int") for rx in case["rxns"])
+    if styles != {"int"}:
+        ctx.label(*("coefficients=" + c for c in sorted(styles - {"int"})))
+        if any(G.net(rx, k) != int(G.net(rx, k)) for rx in case["rxns"] for k in G.rx_keys(rx)):
+            ctx.label("noninteger_net_coefficient")
+        ctx.label(*("reaction_checks=" + c for c in sorted(set(rx.get("checks", "default") for rx in case["rxns"]))))
     return charged
 
 
@@ -121,7 +151,12 @@ def check_admit(case, ctx):
         allk = set()
         for v in viol:
             allk.update(v)
-        ctx.label("violated:charge_only" if allk == {0} else "violated:one_element" if (len(allk) == 1) else "violated:several")
+        which = "charge_only" if allk == {0} else "one_element" if (len(allk) == 1) else "several"
+        ctx.label("violated:" + which)
+        # size of the largest imbalance (in any key of any reaction): small ones must be rejected like any other
+        big = max(abs(x) for v in viol for x in v.values())
+        if big < 1:
+            ctx.label("imbalance<=1/2:" + which if 2 * big <= 1 else "imbalance<1:" + which)
     subs = make_substances(M, case)
     eqsys = case.get("route") == "eqsys"
     if eqsys:
@@ -135,7 +170,7 @@ def check_admit(case, ctx):
         ref = check_balance_vectors(ctx, res, case, "accepted")
         if res.check_balance(strict=True) is not True:
             ctx.fail("check_balance_false_for_balanced")
-        if res.obeys_charge_neutrality() is not True:      # integer charges: exact
+        if res.obeys_charge_neutrality() is not True:      # integer or dyadic charges and coefficients: exact in floats
             ctx.fail("obeys_charge_neutrality_false_for_balanced")
         if eqsys and ref is not None:
             # EqSystem.composition_conservation: totals of small integer vectors are exact in floating point
@@ -150,7 +185,7 @@ def check_admit(case, ctx):
                          expected=[ck, want1, want0])
     else:
         if not is_err(res):
-            ctx.fail("unbalanced_system_accepted", violations=[{str(k): v for k, v in d.items()} for d in viol])
+            ctx.fail("unbalanced_system_accepted", violations=[{str(k): jnum(v) for k, v in d.items()} for d in viol])
             return
         if res.type != "ValueError":
             ctx.fail("rejection_not_ValueError", error=repr(res))
@@ -170,12 +205,13 @@ def check_admit(case, ctx):
         if loose.check_balance(strict=True) is not False:
             ctx.fail("check_balance_true_for_unbalanced")
         if loose.obeys_charge_neutrality() is not (not any(0 in v for v in viol)):
-            ctx.fail("obeys_charge_neutrality_wrong_for_unbalanced", violations=[{str(k): x for k, x in d.items()} for d in viol])
+            ctx.fail("obeys_charge_neutrality_wrong_for_unbalanced",
+                     violations=[{str(k): jnum(x) for k, x in d.items()} for d in viol])
     # per-reaction helpers (anchors): charge exactly, mass within rounding
     for rx, rxn, v in zip(case["rxns"], rxns, viol):
         q = rxn.charge_neutrality_violation(subs)
         if q != v.get(0, 0):
-            ctx.fail("charge_neutrality_violation_value", got=q, expected=v.get(0, 0))
+            ctx.fail("charge_neutrality_violation_value", got=q, expected=jnum(v.get(0, 0)))
             return
         if not v:
             scale = sum(abs(G.net(rx, k)) * abs(subs[k].mass) for k in subs)
@@ -322,7 +358,7 @@ def check_dynamics(case, ctx):
 
 
 SUBCHECKS = [
-    SubCheck("admit", check_admit, strategy=G.composed_systems(max_rxn=6), quick=2000, thorough=60000,
+    SubCheck("admit", check_admit, strategy=G.composed_systems(max_rxn=6, dyadic_share=4), quick=2000, thorough=60000,
              rule="1-6 reactions, one of them possibly broken; constructor verdict, error message, check_balance, "
                   "composition_balance_vectors, charge/mass violation helpers",
              tolerances={"mass_balance_rel_sum_abs": TOL_MASS}),
